@@ -266,6 +266,11 @@ def scale_cuts(row, concrete_frames):
     return sorted(set(conv(o) for o in row['cuts'])), conv(row['total']) if row['total'] < a_off[-1] else None
 
 
+def mc_supported():
+    import minecraft
+    return set(minecraft.SUPPORTED_PROTOCOL_VERSIONS)
+
+
 def run(chk):
     mc = core.import_minecraft()
     rng = random.Random(chk.seed)
@@ -390,6 +395,27 @@ def run(chk):
                           % (bad and bad['meta'], at, why, bad and bad['ev'][max(0, at - 2):at + 1]), {'trace': bad})
         elif not r2.ok:
             raise core.MachineryError('Trace_Framing failed: %s' % r2.errors[:3])
+
+    # ---- the threshold changes in mid-stream: up to protocol 47 the server may switch compression on in the play state
+    from . import c11
+    for j in range(9 if quick else 90):
+        version = (47, 5, 4)[j % 3]
+        if version not in mc_supported():
+            continue
+        hr = random.Random(chk.seed * 353 + j)
+        hist = c11.random_history(hr, hr.randint(6, 30), False)
+        k = hr.randrange(1, len(hist) - 1)
+        run_, tr, prof_ = c11.execute(version, hist, chk.seed * 359 + j, thr=None, mid_comp=(k, (0, 1, 64)[j % 3]),
+                                      chunk=('random', 'one')[j % 2])
+        chk.traces += 1
+        chk.case(('mid-compress', j))
+        sent_ = [e['p'] for e in tr['ev'] if e['k'] == 'srv']
+        got_ = [e['p'] for e in tr['ev'] if e['k'] == 'deliver']
+        if run_.outcome != 'done' or run_.errors or got_ != sent_:
+            chk.violation('framing:mid-stream-compression', 'protocol %d, compression switched on by a play-state set-compression packet in front '
+                          'of packet %d of %d: execution %s, errors %r, %d of %d packets recovered in order'
+                          % (version, k, len(hist), run_.outcome, run_.errors[:1], sum(1 for a, b in zip(sent_, got_) if a == b), len(sent_)),
+                          {'version': version, 'k': k})
 
     # ---- write direction
     n_w = 120 if quick else 1500
